@@ -158,10 +158,8 @@ impl FencedString {
         if self.buffer.chars().all(char::is_lowercase) {
             None
         } else {
-            Some(Self {
-                buffer: self.buffer.to_lowercase(),
-                char_starts: self.char_starts.clone(),
-            })
+            // case mapping can change the byte length of a char: rebuild the table
+            Some(Self::from_str(&self.buffer.to_lowercase()))
         }
     }
 
